@@ -896,7 +896,7 @@ Proof.
       assert (Hg2 : fix_gap c = true \/ hz2 = false).
       { destruct Hg as [Hg|Hg]; [left; exact Hg|right]. apply orb_false_iff in Hg. apply Hg. }
       rewrite <- (pstep_guard c e a b v prev Hg1). rewrite ?Hst.
-      destruct (IH _ _ _ _ _ Hrec Hg2) as [hz' Hr']. unfold ploop in Hr'. rewrite Hr'.
+      destruct (IH _ _ _ _ _ Hrec Hg2) as [hz' Hr']. rewrite Hr'.
       eexists. reflexivity.
 Qed.
 
